@@ -1474,6 +1474,28 @@ static const char *c12_trigger(int ext, int64_t s, int64_t a, int w, int grow) {
     return "untagged";
 }
 
+/* the amount as a LITERAL at the call site (a macro form of the adders, __builtin_constant_p paths, constant
+ * propagation into an inlined body): one call site per literal */
+#define C12_LITS X(0) X(1) X(2) X(15) X(16) X(127) X(128) X(200) X(230) X(239) X(240) X(241) X(250) X(254) X(255) X(256) X(1000) X(65535) X(-1) X(-2) X(-16) X(-240) X(-241) X(-255) X(-256) X(-65536)
+static const int64_t C12_LIT[] = {
+#define X(A) A,
+    C12_LITS
+#undef X
+};
+static int g_c12_literal = 0;
+static int c12_lit_call(int ext, int grow, uint8_t *p, int w, int64_t a) {
+    switch (a) {
+#define X(A)                                                                                                       \
+    case A:                                                                                                        \
+        return ext ? (grow ? (int)varintExternalAddGrow(p, (varintWidth)w, A) : (int)varintExternalAddNoGrow(p, (varintWidth)w, A))                        \
+                   : (grow ? (int)varintTaggedAddGrow(p, A) : (int)varintTaggedAddNoGrow(p, A));
+        C12_LITS
+#undef X
+    default:
+        return -1;
+    }
+}
+
 static void c12_one(int ext, uint64_t su, int w, int64_t a, int grow) {
     /* slot: exactly w bytes for no-grow, family max for grow, at the end of a guard buffer */
     int maxlen = ext ? 8 : 9;
@@ -1494,7 +1516,9 @@ static void c12_one(int ext, uint64_t su, int w, int64_t a, int grow) {
         memcpy(before, p, (size_t)slot);
         int ret = -1;
         if (SB_ENTER()) {
-            if (ext) {
+            if (g_c12_literal) {
+                ret = c12_lit_call(ext, grow, p, w, a);
+            } else if (ext) {
                 ret = grow ? (int)varintExternalAddGrow(p, (varintWidth)w, a) : (int)varintExternalAddNoGrow(p, (varintWidth)w, a);
             } else {
                 ret = grow ? (int)varintTaggedAddGrow(p, a) : (int)varintTaggedAddNoGrow(p, a);
@@ -1619,6 +1643,28 @@ static void run_c12(void) {
             }
         }
         vh_flag(ext ? "triples_external" : "triples_tagged", complete);
+    }
+    /* literal amounts: every stored value below 2400 and the boundary alphabet x 26 literal amounts */
+    if (vh_section_begin("add/literal-amounts")) {
+        const uint64_t DENSE = 2400;
+        for (uint64_t i = 0; i < DENSE + B.n; i++) {
+            if (!vh_case()) {
+                continue;
+            }
+            uint64_t sv = i < DENSE ? i : B.v[i - DENSE];
+            g_c12_literal = 1;
+            for (int ext = 0; ext < 2; ext++) {
+                int w = ext ? ref_bytes_of(sv) : ref_tagged(sv, (uint8_t[16]){0});
+                for (size_t li = 0; li < sizeof C12_LIT / sizeof *C12_LIT; li++) {
+                    for (int grow = 0; grow < 2; grow++) {
+                        c12_one(ext, sv, w, C12_LIT[li], grow);
+                    }
+                }
+            }
+            g_c12_literal = 0;
+            vh_count("cases", 104);
+        }
+        vh_class("add/literal-amounts", "26 literal amounts x {grow, no-grow} x {tagged, external}");
     }
     /* byte-pattern product: every stored value whose 8 bytes are drawn from {00, 01, 7f, 80, ff} (5^8 = 390625 values:
      * every pattern of carries and borrows rippling through any run of bytes) x small amounts of both signs */
